@@ -27,6 +27,7 @@
 #include <string>
 #include <typeinfo>
 #include <sys/resource.h>
+#include <sys/time.h>
 #include <unistd.h>
 #include <vector>
 
@@ -365,7 +366,8 @@ static const char* run_one(const std::string& in, int api, int errsz, int timeou
   char* err = errsz > 0 ? (char*)malloc(errsz) : nullptr;
   if (err) memset(err, 'Z', errsz), err[errsz - 1] = 0;      // poisoned with text: the callee must overwrite it
   if (err && errsz > 1) err[0] = 'Z';
-  alarm(timeout_s);
+  alarm(timeout_s * 12);                                     // wall clock: generous (shared machine), catches sleeping deadlocks
+  { struct itimerval it = {{0, 0}, {timeout_s, 0}}; setitimer(ITIMER_PROF, &it, nullptr); }   // CPU time: the real per-input cap
   g_errmsg[0] = 0;
   if (strstr(buf, "<robot")) S.urdf++;
   g_armed = 1;
@@ -429,6 +431,7 @@ static const char* run_one(const std::string& in, int api, int errsz, int timeou
   }
   g_armed = 0;
   alarm(0);
+  { struct itimerval it = {{0, 0}, {0, 0}}; setitimer(ITIMER_PROF, &it, nullptr); }
   free(err);
   free(buf);
   return outcome;
@@ -442,6 +445,7 @@ int main(int argc, char** argv) {
   std::set_terminate(on_terminate);
   atexit(on_exit_called);
   signal(SIGALRM, on_alarm);
+  signal(SIGPROF, on_alarm);
   if (!__lsan_disable) {          // plain build: bound the address space so that runaway allocations fail fast (ASan has its own limit)
     struct rlimit rl = {3ull << 30, 3ull << 30};
     setrlimit(RLIMIT_AS, &rl);
